@@ -127,6 +127,10 @@ func (p c18) Run(c *fw.Case) {
 		p.decoratedRootOfRemote(c)
 		return
 	}
+	if c.Idx%24 == 5 {
+		p.contentSchemaIdentifiers(c)
+		return
+	}
 	draft := gen.D2020
 	if c.Idx%3 == 2 {
 		draft = gen.D7
@@ -505,5 +509,85 @@ func (c18) decoratedRootOfRemote(c *fw.Case) {
 			}
 		}
 		c.Nontrivial("decorated-root-of-remote|" + where)
+	}
+}
+
+// contentSchemaIdentifiers: contentSchema, contentMediaType and contentEncoding are annotations. A contentSchema is a
+// subschema position like any other for identifiers: an $anchor, $dynamicAnchor or $id declared inside it can be the target of
+// a reference elsewhere - with or without a sibling contentMediaType / contentEncoding, whose presence must change nothing.
+func (c18) contentSchemaIdentifiers(c *fw.Case) {
+	r := c.R
+	leaf := gen.Pick(r, []map[string]any{{"type": "integer"}, {"type": "string"}, {"const": "x"}, {"minimum": json.Number("1")}})
+	inner := gen.Clone(leaf).(map[string]any)
+	var ref string
+	switch r.IntN(3) {
+	case 0:
+		inner["$anchor"] = "inner"
+		ref = "#inner"
+	case 1:
+		inner["$id"] = "http://h/inner.json"
+		ref = gen.Pick(r, []string{"http://h/inner.json", "inner.json"})
+	default:
+		inner["$dynamicAnchor"] = "inner"
+		ref = "#inner"
+	}
+	holder := map[string]any{"contentSchema": map[string]any{"$defs": map[string]any{"x": inner}}}
+	if r.IntN(2) == 0 {
+		holder = map[string]any{"contentSchema": inner}
+	}
+	base := map[string]any{"$id": "http://h/root.json", "properties": map[string]any{"payload": holder, "a": map[string]any{gen.Pick(r, []string{"$ref", "$dynamicRef"}): ref}}}
+	baseText := gen.Text(base)
+	rs0, err, ok := compileDoc(c, baseText, nil)
+	if !ok {
+		return
+	}
+	if err != nil {
+		c.Violation("an identifier declared inside contentSchema cannot be referenced: "+err.Error(), map[string]any{"schema": json.RawMessage(baseText)})
+		return
+	}
+	var insts []any
+	for _, v := range []any{json.Number("1"), json.Number("0"), "x", "y", nil} {
+		insts = append(insts, map[string]any{"a": v}, map[string]any{"a": v, "payload": "{}"})
+	}
+	for k := 0; k < 3; k++ {
+		dec := gen.Clone(base).(map[string]any)
+		h := dec["properties"].(map[string]any)["payload"].(map[string]any)
+		switch k {
+		case 0:
+			h["contentMediaType"] = gen.Pick(r, []string{"application/json", "text/plain"})
+		case 1:
+			h["contentEncoding"] = "base64"
+		default:
+			h["contentMediaType"] = "application/json"
+			h["contentEncoding"] = "base64"
+			h["title"] = "t"
+		}
+		dtext := gen.TextShuffled(r, dec, false)
+		rs1, err, ok := compileDoc(c, dtext, nil)
+		if !ok {
+			return
+		}
+		if err != nil {
+			c.Violation("adding content annotations beside a contentSchema makes the schema unresolvable: "+err.Error(), map[string]any{"schema": json.RawMessage(baseText), "decorated": json.RawMessage(dtext)})
+			return
+		}
+		for _, inst := range insts {
+			it := gen.Text(inst)
+			v0, ok := validate(c, rs0, baseText, gen.Canonical(it), it)
+			if !ok {
+				return
+			}
+			v1, ok := validate(c, rs1, dtext, gen.Canonical(it), it)
+			if !ok {
+				return
+			}
+			c.Eval(1)
+			if v0 != v1 {
+				c.Violation(fmt.Sprintf("a content annotation beside contentSchema changed the verdict (without it valid=%v, with it valid=%v)", v0, v1),
+					map[string]any{"schema": json.RawMessage(baseText), "decorated": json.RawMessage(dtext), "instance": json.RawMessage(it)})
+				return
+			}
+		}
+		c.Nontrivial(fmt.Sprintf("contentSchema-identifiers|%d|%s", k, ref))
 	}
 }
